@@ -105,11 +105,19 @@ def enc_case(rng, m, default, wf_intended):
                 try:
                     back = L.decode_pdu(pdu, default)
                     if hasattr(m, 'short_message'):
-                        m._wire_len = len(m._encoded_message) if m._encoded_message else 255
+                        # octet count of the text by codecs that are not the library's (decides which of
+                        # short_message / message_payload the text must read back in)
+                        from spec import smpp as _S
+                        _alpha = m.encoding or default or 'gsm0338'
+                        _tb = _S.text_bytes(m.short_message or m.message_payload, _alpha) if _alpha in _S.DATA_CODING else None
+                        m._wire_len = len(_tb) if _tb is not None else None
                     want = L.normalise_expected(m, default)
                     got = {k: v for k, v in back.__dict__.items() if not k.startswith('_')}
+                    either = want.pop('_either_field', None)
                     for k in want:
                         a, b = want[k], got.get(k)
+                        if either is not None and k in ('short_message', 'message_payload'):
+                            continue
                         if k in ('schedule_delivery_time', 'validity_period'):
                             ok = same_time(a, b)
                         elif k in ('short_message', 'message_payload') and a and packed_ambiguity(m, default, a, b):
@@ -119,6 +127,9 @@ def enc_case(rng, m, default, wf_intended):
                         if not ok:
                             fail = 'field %s: sent %r, decoded %r' % (k, a, b)
                             break
+                    if either is not None and fail is None and (got.get('short_message') or got.get('message_payload')) != either \
+                            and not packed_ambiguity(m, default, either, got.get('short_message') or got.get('message_payload')):
+                        fail = 'text: sent %r, decoded %r' % (either, got.get('short_message') or got.get('message_payload'))
                     if type(back) is not type(m) and fail is None:
                         fail = 'decoded as %s' % type(back).__name__
                 except Exception as e:      # noqa
